@@ -26,7 +26,7 @@ type Vocab struct {
 	GetInodeUnlocked, OwnInum                              *ssa.Function
 	errRet, commitReply, lockInodes                        *ssa.Function
 
-	JrnlCommitWait, LogFlush, LogCommitWait, MkLog, JrnlBegin *ssa.Function
+	JrnlCommitWait, LogFlush, LogCommitWait, LogLoad, MkLog, JrnlBegin *ssa.Function
 	OverWrite, ReadBuf, SetDirty, BnumPut, BnumGet            *ssa.Function
 	LockAcquire, LockRelease                                  *ssa.Function
 	AllocNum, FreeNum                                         *ssa.Function
@@ -130,6 +130,7 @@ func resolveVocab(P *Program) *Vocab {
 	get(&v.OverWrite, jrnlPath+"/jrnl.(*Op).OverWrite")
 	get(&v.ReadBuf, jrnlPath+"/jrnl.(*Op).ReadBuf")
 	get(&v.LogFlush, jrnlPath+"/obj.(*Log).Flush")
+	get(&v.LogLoad, jrnlPath+"/obj.(*Log).Load")
 	get(&v.LogCommitWait, jrnlPath+"/obj.(*Log).CommitWait")
 	get(&v.MkLog, jrnlPath+"/obj.MkLog")
 	get(&v.SetDirty, jrnlPath+"/buf.(*Buf).SetDirty")
